@@ -28,6 +28,7 @@ pub struct Ipv4Header {
 pub struct Ipv4Packet {
     header: RefCell<Ipv4Header>,
     pub rawdata: RefCell<Rc<Vec<u8>>>,
+    start: usize, // Offset of the ipv4 header
     pub offset: usize,
     pub inner: RefCell<Option<Rc<Object>>>,
 }
@@ -72,17 +73,14 @@ impl Ipv4Packet {
         let checksum = ((rawdata[off + 10] as u16) << 8) | (rawdata[off + 11] as u16);
         let source = Ipv4Address::from_bytes(&rawdata[(off + 12)..(off + 16)]);
         let destination = Ipv4Address::from_bytes(&rawdata[(off + 16)..(off + 20)]);
-        // Handle ipv4 options
-        let mut options = Vec::new();
-        if ihl > 5 {
-            let mut i: usize = 20;
-            while i < ihl as usize * 4 {
-                options.push(rawdata[off + i]);
-                i += 1;
-            }
+        // The header length must cover the fixed header and, together
+        // with the options, lie within the captured bytes.
+        let header_len = ihl as usize * 4;
+        if header_len < IPV4_HEADER_SIZE || rawdata.len() < off + header_len {
+            return Err(PacketError::InvalidLength(rawdata.len()));
         }
-        //  offset of payload
-        let offset = off + ihl as usize * 4;
+        //  offset of payload (the options stay in the raw data)
+        let offset = off + header_len;
 
         let header = Ipv4Header {
             version,
@@ -102,6 +100,7 @@ impl Ipv4Packet {
         Ok(Self {
             header: RefCell::new(header),
             rawdata: RefCell::new(rawdata),
+            start: off,
             offset,
             inner: RefCell::new(None),
         })
@@ -333,6 +332,9 @@ impl From<&Ipv4Packet> for Vec<u8> {
     fn from(ipv4: &Ipv4Packet) -> Self {
         let header = ipv4.header.borrow().clone();
         let mut bytes: Vec<u8> = (&header).into();
+        // the options are kept as captured
+        let data = ipv4.rawdata.borrow().clone();
+        bytes.extend_from_slice(&data[ipv4.start + IPV4_HEADER_SIZE..ipv4.offset]);
         if let Some(inner) = ipv4.inner.borrow().clone().filter(|i| !i.is_error()) {
             let data: Vec<u8> = inner.as_ref().into();
             bytes.extend_from_slice(&data);
